@@ -235,9 +235,8 @@ func strExecFormat(s *String, values []r.Element) (r.Element, error) {
 func strExecAtoi(s *String, values []r.Element) (r.Element, error) {
 	v := strings.Replace(s.value, "*^", "e", 1)
 	v = strings.Replace(v, "*10^", "e", 1)
-	s.value = v
 
-	num, err := strconv.ParseFloat(s.value, 64)
+	num, err := strconv.ParseFloat(v, 64)
 	if err != nil {
 		return nil, ThrowException("转成数值失败，文本可能并不符合合适的数值格式")
 	}
